@@ -85,6 +85,8 @@ def r03_1(chk):
     mjd = f.params()[1]
     ok = assigns.get("jd") == f"{mjd}+Date.JD_MJD" and assigns.get("jj") == "Date._julian_century(jd)" \
         and assigns.get("m") == "radians(357.5277233+35999.05034*jj)" and assigns.get("delta_lambda") == "radians(246.11+0.90251792*(jd-Date.J2000))"
+    from ..frozen import compare_formulas
+    compare_formulas(chk, "R03.1", f"{DATE}::Timescale._scale_tdb_minus_tt", f.node, loc(f, f.node), "TDB−TT two-term series")
     chk.inst("R03.1", f"{f.ref}::arguments", ok, "M in centuries, Δλ in days from J2000, both converted to radians" if ok else f"{assigns}", loc(f, f.node))
     # Date constants
     d = repo.cls(DATE, "Date")
